@@ -691,7 +691,8 @@ def run(ctx):
     kinds, codes_seen = {}, {}
     n_valid = n_invalid = 0
     divergences, shared, dis = [], [], []
-    known = {"C08-max0": 0, "C08-emptychoice": 0, "C08-emptyns": 0, "C08-prohibited": 0, "C08-nilfalse": 0, "C08-counting": 0, "C08-nilchildren": 0, "C08-attwild-anylist": 0}
+    known = {"C08-max0": 0, "C08-emptychoice": 0, "C08-emptyns": 0, "C08-prohibited": 0, "C08-nilfalse": 0, "C08-counting": 0, "C08-nilchildren": 0, "C08-attwild-anylist": 0, "C08-attwild-emptyunion": 0}
+    notexpr_code = "E%d" % [k for k, v in names["E"].items() if v == "NotExpressibleWildCardIntersection"][0]
     prohibited_code = [k for k, v in names["V"].items() if v == "ProhibitedAttributePresent"][0]
     nviol = 0
     code_dis = [0]
@@ -735,6 +736,13 @@ def run(ctx):
             if s0 == "ok" or s1 == "ok":
                 viol("schema", dict(base, what="attribute wildcard intersection/union is not expressible but the schema is "
                                     "loaded without error", s0=s0, s1=s1))
+            continue
+        if case.get("attwild") and s0 == s1 and s0 != "ok" and all(len(t) >= 3 and t[2] == "x" for t in ml.split(" ")) \
+                and set(s0.split(",")) == {notexpr_code} and ctx.find_known("C08-attwild-emptyunion"):
+            # the faithful (unrepaired) evaluation finds the combination not expressible although the repaired one (= Spec)
+            # has a result: union of an empty namespace list with not(namespace)
+            ctx.count()
+            known["C08-attwild-emptyunion"] += 1
             continue
         if s0 != "ok" or s1 != "ok":
             viol("schema", dict(base, what="schema rendered from a valid typed schema model reported as erroneous",
@@ -933,6 +941,10 @@ def run(ctx):
                                     "+ attribute group, or two groups) yields a wildcard that allows nothing: "
                                     "attWildCardIntersection copies the type but not the namespace list (proposed repair: "
                                     "fixes/C08-attwildcard-any-list.patch)",
+             "C08-attwild-emptyunion": "extension whose own complete attribute wildcard is the empty set (e.g. ##other "
+                                       "intersected with ##local) over a base with ##other: the union is ##other (3.10.6 "
+                                       "Union clause 5.4) but the schema is rejected with NotExpressibleWildCardIntersection "
+                                       "(proposed repair: fixes/C08-attwildcard-empty-union.patch)",
              "C08-prohibited": "an attribute declared with use=prohibited (which corresponds to no attribute use at all) is "
                                "rejected with ProhibitedAttributePresent even when the type's attribute wildcard allows it"}
     for fid, nhit in known.items():
